@@ -71,3 +71,29 @@ Theorem C05_start_watching_keeps_invariant : forall db ws ls id w,
   let ls1 := lset ls (fst w) (id :: lget ls (fst w)) in
   WInv db (wset ws id w) (lset ls1 (snd w) (id :: lget ls1 (snd w))).
 Proof. exact winv_start. Qed.
+
+(* ---- the solver model as a whole (Cdcl/Solver.v: the component models composed
+   with the control flow of solve / run_sat / resolve_dependencies /
+   learn_from_conflict / the soft-requirement loop; in whole-run equality with
+   the implementation) ---- *)
+From Resolvo Require Import Cdcl.SolverProofs.
+
+(* for every well-formed provider, problem, fuel, activity function and completion
+   order: the structural invariant -- encoder invariant, the non-learnt part of
+   the database is the encoder's database, watch invariant, duplicate-free trail
+   -- holds in the state solve ends in (and, by the preservation lemmas it is
+   assembled from, in every state it passes through) *)
+Theorem C05_solver_model_invariant : forall U P, WF U -> forall A a_ge a_conflict fuel efuel (a0 : A) order o st,
+  solve U P a_ge a_conflict fuel efuel a0 order = (o, st) -> SInv U P A st.
+Proof. exact solve_inv. Qed.
+
+(* hence the hypotheses of propagate_sound need no per-run evaluation for the watch
+   scheme: in every such state a call of propagate makes only justified assignments
+   and reports only falsified clauses *)
+Theorem C05_solver_model_propagate_sound : forall U P A (st : sstate A) level st' r,
+  SInv U P A st ->
+  (forall x, In x (s_asserts st ++ s_units st) -> assert_just (s_db st) (s_ps st) x = true) ->
+  s_propagate st level = Some (st', r) ->
+  grows (s_db st) (ps_trail (s_ps st)) (ps_trail (s_ps st')) /\
+  (forall id, r = Some id -> exists c, nth_error (s_db st) (N.to_nat id) = Some c /\ falsified (ps_trail (s_ps st')) (cl_lits c) = true).
+Proof. exact sinv_propagate_sound. Qed.
